@@ -1,16 +1,16 @@
 #!/bin/bash
 # usage: iso_eval.sh <patch.diff> <prop>...
 # Runs the quick checks of the given properties on a patched copy of pams WITHOUT touching /repo or /verif's
-# build: a scratch worktree of /repo (removed afterwards) gets the patch, a copy of /verif under /tmp/verif_eval
+# build: a scratch worktree of /repo (removed afterwards) gets the patch, a copy of /verif under /tmp/verif_iso
 # runs the checks with PAMS_REPO pointing at the worktree.  For development only (registered checks always run
 # in /verif against /repo).
 PATCH=$(readlink -f "$1"); shift
 WT=/tmp/wt_iso_$$
 git -C /repo worktree add --detach -q $WT HEAD || exit 3
 ( cd $WT && git apply "$PATCH" ) || { git -C /repo worktree remove --force $WT; echo "patch does not apply"; exit 3; }
-mkdir -p /tmp/verif_eval
-rsync -a --delete /verif/ /tmp/verif_eval/ --exclude .git --exclude replays
+mkdir -p /tmp/verif_iso
+rsync -a --delete /verif/ /tmp/verif_iso/ --exclude .git --exclude replays
 for prop in "$@"; do
-  ( cd /tmp/verif_eval && PAMS_REPO=$WT timeout 1500 /venv/bin/python harness/run.py quick $prop 2>&1 | grep -E "VIOLATION|KNOWN|quick seed" | head -6 )
+  ( cd /tmp/verif_iso && PAMS_REPO=$WT timeout 1500 /venv/bin/python harness/run.py quick $prop 2>&1 | grep -E "VIOLATION|KNOWN|quick seed" | head -6 )
 done
 git -C /repo worktree remove --force $WT
